@@ -611,6 +611,25 @@ func genEthTx(t *rapid.T, st *genState) TxSpec {
 			s.Data = append(d, genBytes(t, "ecTail", 0, 40)...)
 			s.Note = "precompile-ecrecover-wellformed"
 		}
+		if p == 5 && pick(t, "modexpShape", 1, 1) == 1 {
+			// modexp reads three 32-byte lengths (base, exponent, modulus) before its operands: zero,
+			// tiny, word-sized and absurd lengths in every position, operands short or missing
+			lens := []uint64{0, 0, 1, 2, 31, 32, 33, 64, 200, 1 << 31, 1 << 32, 1 << 62, 1<<63 - 1, 1 << 63, math.MaxUint64}
+			var d []byte
+			for i := 0; i < 3; i++ {
+				w := make([]byte, 32)
+				v := rapid.SampledFrom(lens).Draw(t, "modexpLen")
+				for k := 0; k < 8; k++ {
+					w[31-k] = byte(v >> (8 * uint(k)))
+				}
+				if pick(t, "modexpHighBits", 9, 1) == 1 {
+					w[rapid.IntRange(0, 23).Draw(t, "modexpHighByte")] = 1
+				}
+				d = append(d, w...)
+			}
+			s.Data = append(d, genBytes(t, "modexpOperands", 0, 100)...)
+			s.Note = "precompile-modexp-lengths"
+		}
 		if p == 0xfe {
 			if len(s.Data) >= 32 && pick(t, "feWord", 1, 2) == 1 {
 				copy(s.Data, word(rapid.OneOf(rapid.Uint64Range(0, 220), rapid.SampledFrom([]uint64{0, 19, 20, 1 << 63, math.MaxUint64, math.MaxUint64 - 31, math.MaxUint64 - 11})).Draw(t, "feDlen")))
